@@ -50,7 +50,11 @@ pub fn builder_from(tokens: &[&str]) -> Result<rpm::PackageBuilder, rpm::Error> 
     if let Some(x) = get("vc") { b = b.vcs(hs(x)); }
     if let Some(x) = get("ck") { b = b.cookie(hs(x)); }
     if let Some(x) = get("bh") { b = b.build_host(hs(x)); }
-    if let Some(x) = get("sd") { b = b.source_date(x.parse::<u32>().unwrap()); }
+    // `sdlast`: call source_date() AFTER the files were added (the order used in the crate's own docs)
+    let sd_last = tokens.iter().any(|t| *t == "sdlast");
+    if !sd_last {
+        if let Some(x) = get("sd") { b = b.source_date(x.parse::<u32>().unwrap()); }
+    }
     if let Some(x) = get("c") {
         let (ty, lvl) = x.split_once(':').unwrap_or((x, "0"));
         let c = match ty {
@@ -116,6 +120,9 @@ pub fn builder_from(tokens: &[&str]) -> Result<rpm::PackageBuilder, rpm::Error> 
             let p: Vec<&str> = r.split(':').collect();
             b = b.add_changelog_entry(hs(p[0]), hs(p[1]), p[2].parse::<u32>().unwrap());
         }
+    }
+    if sd_last {
+        if let Some(x) = get("sd") { b = b.source_date(x.parse::<u32>().unwrap()); }
     }
     Ok(b)
 }
